@@ -873,6 +873,46 @@ Proof.
   pose proof (retention_max_or_protected _ _ _ _ _ _ Hk Hp). lia.
 Qed.
 
+(** The bound of the property's text where it is true without qualification: the configured minimum
+    number is below the maximum and no old delta at an index >= max_nr - 1 is younger than
+    min_seconds (with min_seconds = 0: none carries a time in the future). Then no retained delta
+    is protected beyond the maximum and at most max_nr deltas are retained - the new one included.
+    (With [keep >= max_nr] in place of [keep + 1 >= max_nr], the count test of before the first
+    repair of the loop and of seeded defect C11-7, one more would be.) *)
+Theorem retention_within_max a sz r orc r' :
+  rstep a sz r OUpdate orc = Some r' -> staged_nonempty (r_st r) = true ->
+  c_min_nr (or_cfg orc) < c_max_nr (or_cfg orc) ->
+  (forall i x, nth_error (r_deltas r) i = Some x -> c_max_nr (or_cfg orc) - 1 <= N.of_nat i ->
+               younger_than (or_now orc) (c_min_secs (or_cfg orc)) x = false) ->
+  N.of_nat (length (r_deltas r')) <= c_max_nr (or_cfg orc).
+Proof.
+  intros H En Hm Hy.
+  pose proof (retention_system a sz r orc r' (c_max_nr (or_cfg orc) - 1) H En) as G.
+  assert (N.of_nat (length (r_deltas r')) <= N.max (c_max_nr (or_cfg orc)) (1 + (c_max_nr (or_cfg orc) - 1))); [|lia].
+  apply G. intros i x Hx Hi. unfold protected. rewrite (Hy i x Hx Hi).
+  replace (N.of_nat i <? c_min_nr (or_cfg orc)) with false by (symmetry; apply N.ltb_ge; lia). reflexivity.
+Qed.
+
+(** Under the same conditions, and with no old delta older than max_seconds, the loop keeps
+    exactly the newest max_nr - 1 old deltas (all of them if there are fewer): the maximum is
+    reached, not only respected. *)
+Theorem truncate_age_exact a c now ds :
+  c_min_nr c < c_max_nr c ->
+  (forall i x, nth_error ds i = Some x -> c_max_nr c - 1 <= N.of_nat i -> younger_than now (c_min_secs c) x = false) ->
+  (forall x, In x ds -> older_than now (c_max_secs c) x = false) ->
+  find_deltas_truncate_age a c now ds = Some (N.min (N.of_nat (length ds)) (c_max_nr c - 1)).
+Proof.
+  intros Hm Hy Ho. destruct (find_total c now ds) as [k Hk]. specialize (Hk a). rewrite Hk. f_equal.
+  assert (Hb : k <= c_max_nr c - 1).
+  { apply (retention_bound a c now ds k); [lia|exact Hk|].
+    intros i x Hx Hi. unfold protected. rewrite (Hy i x Hx Hi).
+    replace (N.of_nat i <? c_min_nr c) with false by (symmetry; apply N.ltb_ge; lia). reflexivity. }
+  destruct (truncate_age_stop a c now ds k Hk) as [E|[x [Hx [_ [Hc|Hold]]]]].
+  - lia.
+  - assert (Hlt : (N.to_nat k < length ds)%nat) by (apply nth_error_Some; rewrite Hx; discriminate). lia.
+  - rewrite (Ho x (nth_error_In _ _ Hx)) in Hold. discriminate.
+Qed.
+
 Example retention_bound_nonvacuous :
   find_deltas_truncate_age Checked (mkCfg 0 0 2 7200 false) 100000000%Z
     [w_young 99000000 4; w_young 98000000 3; w_young 97000000 2] = Some 1.
@@ -924,6 +964,20 @@ Lemma w_state_run : rrun Checked w_sz (rinit w_base 8 0) w_ops = Some w_state.
 Proof. vm_compute. reflexivity. Qed.
 Lemma w_state_inv : RInv w_state.
 Proof. eapply rinv_run; [apply rinv_init|apply w_good|apply w_state_run]. Qed.
+
+(** Hypotheses of [retention_within_max] / [truncate_age_exact] met: three old deltas, min_nr 1 below
+    max_nr 3, min_seconds 0; the update retains exactly three deltas. *)
+Example retention_within_max_nonvacuous :
+  let orc := mkOracle 4000000 4 9 (mkCfg 1 0 3 7200 false) in
+  exists r', rstep Checked w_sz w_state OUpdate orc = Some r' /\ staged_nonempty (r_st w_state) = true
+    /\ c_min_nr (or_cfg orc) < c_max_nr (or_cfg orc)
+    /\ forallb (fun x => negb (younger_than (or_now orc) (c_min_secs (or_cfg orc)) x)) (r_deltas w_state) = true
+    /\ N.of_nat (length (r_deltas w_state)) = 3 /\ N.of_nat (length (r_deltas r')) = 3.
+Proof. eexists. repeat split; vm_compute; reflexivity. Qed.
+Example truncate_age_exact_nonvacuous :
+  find_deltas_truncate_age Checked (mkCfg 1 0 3 7200 false) 100000000%Z
+    [w_young 99000000 5; w_young 98000000 4; w_young 97000000 3; w_young 96000000 2] = Some 2.
+Proof. vm_compute. reflexivity. Qed.
 
 Theorem retention_unconditional_refuted : ~ retention_unconditional.
 Proof.
